@@ -300,6 +300,9 @@ func nativeReplay(group string, files []replayFileT) (ok, bad int, msgs []string
 		if strings.Contains(virt, "internal/verifrt") || strings.Contains(virt, "zz_verif/kit/") {
 			continue
 		}
+		if strings.Contains(virt, "/zz_verif/") && !strings.Contains(virt, "/zz_verif/"+group+"/") {
+			continue // a group this one imports
+		}
 		pkgDir = filepath.Dir(virt)
 		for _, line := range strings.Split(string(content), "\n") {
 			if strings.HasPrefix(line, "package ") && pkgName == "" {
